@@ -557,11 +557,13 @@ def driver_main(a: argparse.Namespace) -> int:
     known = load_known()
     confirmed: list[dict] = []
     known_hits: list[tuple[dict, dict]] = []
-    seen_clauses: dict[str, int] = {}
+    seen_clauses: dict[tuple, int] = {}
     to_confirm = []
     for v in viols:
-        seen_clauses[v["clause"]] = seen_clauses.get(v["clause"], 0) + 1
-        if seen_clauses[v["clause"]] <= 2 and len(to_confirm) < tier.get("max_confirm", 6):
+        k0 = match_known(known, a.property, v)
+        key = (v["clause"], k0.get("id") if k0 else None)  # a listed finding never uses up the slots of an unlisted violation
+        seen_clauses[key] = seen_clauses.get(key, 0) + 1
+        if seen_clauses[key] <= 2 and len(to_confirm) < tier.get("max_confirm", 6) + (2 if k0 else 0):
             to_confirm.append(v)
     for v in to_confirm:
         envp = dict(os.environ, **SINGLE_THREAD_ENV)
